@@ -572,15 +572,15 @@ macro_rules! harness {
 }
 
 // committed index chains
-harness!(c12_index_chain_exact, false, index_chain(2, 2, false));
+harness!(c12_index_chain_exact_small, false, index_chain(2, 2, false));
 harness!(c12_index_chain_exact_deep, false, index_chain(3, 2, false));
-harness!(c12_index_chain_prefix, false, index_chain(2, 2, true), 2, "prefix query over two indexes, two or more results");
+harness!(c12_index_chain_prefix_small, false, index_chain(2, 2, true), 2, "prefix query over two indexes, two or more results");
 harness!(c12_index_chain_prefix_deep, false, index_chain(3, 1, true), 2, "prefix query over three indexes, two or more results");
 harness!(c12_index_chain_prefix_mixed, true, index_chain(2, 2, true), 2, "compound keys: two or more results");
 // perspective -> prior perspective -> indexes
-harness!(c12_perspective_chain_exact, false, perspective_chain(1, Some(1), 1, 1, false));
+harness!(c12_perspective_chain_exact_small, false, perspective_chain(1, Some(1), 1, 1, false));
 harness!(c12_perspective_chain_exact_deep, false, perspective_chain(2, Some(2), 2, 2, false));
-harness!(c12_perspective_chain_prefix, false, perspective_chain(1, Some(1), 1, 1, true), 2, "prefix query across perspective, prior perspective and index");
+harness!(c12_perspective_chain_prefix_small, false, perspective_chain(1, Some(1), 1, 1, true), 2, "prefix query across perspective, prior perspective and index");
 harness!(c12_perspective_chain_prefix_deep, false, perspective_chain(2, Some(1), 2, 1, true), 2, "two or more results");
 harness!(c12_perspective_chain_prefix_mixed, true, perspective_chain(1, Some(1), 1, 1, true), 2, "compound keys: two or more results");
 // writes / replayed updates
